@@ -23,18 +23,24 @@
     sequences; [gen_blocks_refine_allocset]: composed with
     C17_blocks_refine_allocset (proofs/C17_Blocks.v), the outputs of the
     generated code are those of the allocation-set specification
-    (spec/AllocSet.v).
+    (spec/AllocSet.v); [gen_blocks_refine_allocset_gen] states it from the
+    decision of the generated NewBlocks for every Go-int block size (no
+    hypothesis on the model's constructor), [gen_blocks_refine_allocset_heap]
+    for any heap array of bytes (no model buffer in the hypotheses).
+    Companions for every state of a run: [gen_arrange_fresh_run],
+    [gen_no_double_allocation], [gen_blocks_disjoint],
+    [gen_available_accounting], [gen_reopen_same].
 
     Hypotheses the run needs beyond the model's invariant: the stage-5
     hypotheses [geom_ok], [geom_ok2], [counters_ok] of the per-function ties.
     They are not assumed along the run: [rinv] (reachable in the model, hint
     inside the storage, 8*size+8 < 2^31 so that the int32 counter cannot wrap)
     implies them ([rinv_hyps]) and is preserved by every step ([rinv_step]). *)
-From Coq Require Import List ZArith NArith Lia Bool.
-From Coq Require Import ZifyBool.
+From Coq Require Import List ZArith NArith Lia Bool FMapPositive.
+From Coq Require Import ZifyBool ZifyN.
 From GL Require Import lib.GoLite model.Blocks spec.AllocSet proofs.C17_Bytes proofs.C17_Geometry
   proofs.C17_Count proofs.C17_Inv proofs.C17_Blocks.
-From GLGEN Require Import BL_GenVocab Gen_blocks C17_GenFn C17_GenFn_block C17_GenFn_alloc C17_GenFn_init.
+From GLGEN Require Import BL_GenVocab Gen_blocks C17_GenFn_gbis C17_GenFn C17_GenFn_block C17_GenFn_alloc C17_GenFn_init.
 Import ListNotations.
 Open Scope Z_scope.
 Ltac Zify.zify_post_hook ::= Z.div_mod_to_equations.
@@ -443,6 +449,114 @@ Proof.
 Qed.
 Print Assumptions gen_blocks_refine_allocset.
 
+(** The same from the side of the generated constructor alone: for every
+    Go-int block size (also those whose segment size overflows an int, which
+    the code rejects since a2fad47 and the unbounded model rejects because no
+    storage of less than 2^28 bytes holds such a segment), the generated
+    NewBlocks terminates without a panic and without touching the heap; it
+    answers an error exactly for the geometries the specification of the
+    constructor excludes, and otherwise every run of the generated code gives
+    the outputs of the allocation-set specification started from the set
+    recorded in the header bytes of the storage. *)
+Lemma gen_NewBlocks_decision : forall A hd page bs fit h buf,
+  0 < page < 9223372036854775808 -> int_ok bs -> brel A h buf -> 8 * bsize buf + 8 < 2147483648 ->
+  match new_blocks page bs buf fit with
+  | CtorOk b => exists g, Gen.NewBlocks page (hb_Size A) (hb_Buffer A) bs hd fit h = Ok ((g, ENil), h) /\ grel hd A h g b
+  | _ => exists g, Gen.NewBlocks page (hb_Size A) (hb_Buffer A) bs hd fit h = Ok ((g, Err), h)
+  end.
+Proof.
+  intros A hd page bs fit h buf Hp Hb B Hsm. pose proof B as (_ & _ & Hsz & _).
+  destruct (Z.lt_ge_cases ((bs * 8 + 1) * bs) 9223372036854775808) as [Hs|Hbig].
+  - pose proof (gen_NewBlocks_refines_hb A hd page bs fit h buf B Hp Hb Hs Hsm) as T.
+    destruct (new_blocks_spec page bs buf fit ltac:(lia) ltac:(lia)) as [(_ & _ & _ & E)|(_ & E)];
+      rewrite E in *; exact T.
+  - (* the segment size does not fit an int *)
+    assert (En : new_blocks page bs buf fit = CtorErr EInvalid).
+    { destruct (new_blocks_spec page bs buf fit ltac:(lia) ltac:(lia)) as [(_ & Hss & _)|(_ & E)]; [|exact E].
+      unfold ssz in Hss. exfalso. replace ((8 * bs + 1) * bs) with ((bs * 8 + 1) * bs) in Hss by ring. lia. }
+    rewrite En.
+    assert (Eg : Gen.GetBlocksInSegment page bs h = Ok (-1, h)).
+    { destruct (Z.leb_spec bs 0) as [Hle|Hpos].
+      - unfold Gen.GetBlocksInSegment. destruct (Z.leb_spec bs 0); [reflexivity|lia].
+      - apply gen_GetBlocksInSegment_guard; try assumption. unfold int_ok in Hb. lia. }
+    unfold Gen.NewBlocks. go_call Eg. cbv beta iota zeta. cbn [Z.ltb Z.compare]. eexists. reflexivity.
+Qed.
+
+Theorem gen_blocks_refine_allocset_gen : forall A hd page bs fit h buf ops,
+  0 < page < 9223372036854775808 -> int_ok bs -> brel A h buf -> 8 * bsize buf + 8 < 2147483648 ->
+  Forall op_ok ops ->
+  exists g e, Gen.NewBlocks page (hb_Size A) (hb_Buffer A) bs hd fit h = Ok ((g, e), h) /\
+    (e = Err -> ~ valid_bs page bs \/ bsize buf < ssz bs \/ (fit = true /\ bsize buf mod ssz bs <> 0)) /\
+    (e = ENil ->
+       valid_bs page bs /\ ssz bs <= bsize buf /\ (fit = true -> bsize buf mod ssz bs = 0) /\
+       let segs := bsize buf / ssz bs in
+       fst (fst (gen_run page fit A hd g ops h)) =
+       map forget_err (fst (sp_run (mkSpec bs segs (alloc_of_bytes bs segs buf)) ops))).
+Proof.
+  intros A hd page bs fit h buf ops Hp Hb B Hsm Hok. pose proof B as (_ & _ & Hsz & _).
+  pose proof (gen_NewBlocks_decision A hd page bs fit h buf Hp Hb B Hsm) as D.
+  destruct (new_blocks_spec page bs buf fit ltac:(lia) ltac:(lia)) as [(Hv & Hss & Hf & E)|(Hbad & E)];
+    rewrite E in D.
+  - destruct D as (g & Eg & R). exists g, ENil. split; [exact Eg|]. split; [discriminate|]. intros _.
+    split; [exact Hv|]. split; [exact Hss|]. split; [exact Hf|]. cbv zeta.
+    destruct (gen_blocks_refine_allocset A hd page bs fit h buf _ ops Hp B Hsm E Hok)
+      as (g2 & Eg2 & _ & gf & hf & Er & _).
+    rewrite Eg in Eg2. injection Eg2 as <-. rewrite Er. reflexivity.
+  - destruct D as (g & Eg). exists g, Err. split; [exact Eg|]. split; [intros _; exact Hbad|discriminate].
+Qed.
+
+(** Without a model buffer in the hypotheses: the storage is any heap array
+    of bytes; [buf_of_list] is the model buffer with those bytes (it only
+    serves to name the allocated set recorded in the header bytes). *)
+Fixpoint cells_of (l : list Z) (off : Z) : PositiveMap.t N :=
+  match l with
+  | [] => PositiveMap.empty N
+  | x :: t => PositiveMap.add (key off) (Z.to_N x) (cells_of t (off + 1))
+  end.
+Definition buf_of_list (l : list Z) : buffer := mkBuf (zlen l) (cells_of l 0).
+
+Lemma cells_of_find : forall l off i, (i < length l)%nat ->
+  PositiveMap.find (key (off + Z.of_nat i)) (cells_of l off) = Some (Z.to_N (nth i l 0)).
+Proof.
+  induction l as [|x t IH]; intros off i Hi; cbn [length] in Hi; [lia|]. cbn [cells_of].
+  destruct i as [|i].
+  - rewrite Z.add_0_r, PositiveMap.gss. reflexivity.
+  - rewrite PositiveMap.gso by (intros Hk; apply key_inj in Hk; lia).
+    replace (off + Z.of_nat (S i)) with (off + 1 + Z.of_nat i) by lia. cbn [nth]. apply IH. lia.
+Qed.
+
+Lemma brel_of_list : forall A h, (A < length h)%nat ->
+  Forall (fun x => 0 <= x < 256) (arr_get h A) -> zlen (arr_get h A) < 9223372036854775808 ->
+  brel A h (buf_of_list (arr_get h A)).
+Proof.
+  intros A h Ha Hby Hlen. unfold brel, buf_of_list. cbn [bsize]. split; [exact Ha|]. split; [reflexivity|].
+  split; [unfold zlen in *; lia|]. intros off Ho. unfold bget, znth. cbn [cells].
+  pose proof (cells_of_find (arr_get h A) 0 (Z.to_nat off) ltac:(unfold zlen in Ho; lia)) as F.
+  rewrite Z.add_0_l, Z2Nat.id in F by lia. rewrite F.
+  assert (Hx : 0 <= nth (Z.to_nat off) (arr_get h A) 0 < 256).
+  { rewrite Forall_forall in Hby. apply Hby. apply nth_In. unfold zlen in Ho. lia. }
+  change 255%N with (N.ones 8). rewrite N.land_ones, N.mod_small by (change (2 ^ 8)%N with 256%N; lia).
+  rewrite Z2N.id by lia. reflexivity.
+Qed.
+
+Theorem gen_blocks_refine_allocset_heap : forall A hd page bs fit h ops,
+  0 < page < 9223372036854775808 -> int_ok bs -> (A < length h)%nat ->
+  Forall (fun x => 0 <= x < 256) (arr_get h A) -> 8 * zlen (arr_get h A) + 8 < 2147483648 ->
+  Forall op_ok ops ->
+  let size := zlen (arr_get h A) in let buf := buf_of_list (arr_get h A) in
+  exists g e, Gen.NewBlocks page (hb_Size A) (hb_Buffer A) bs hd fit h = Ok ((g, e), h) /\
+    (e = Err -> ~ valid_bs page bs \/ size < ssz bs \/ (fit = true /\ size mod ssz bs <> 0)) /\
+    (e = ENil ->
+       valid_bs page bs /\ ssz bs <= size /\ (fit = true -> size mod ssz bs = 0) /\
+       let segs := size / ssz bs in
+       fst (fst (gen_run page fit A hd g ops h)) =
+       map forget_err (fst (sp_run (mkSpec bs segs (alloc_of_bytes bs segs buf)) ops))).
+Proof.
+  intros A hd page bs fit h ops Hp Hb Ha Hby Hsm Hok size buf.
+  pose proof (brel_of_list A h Ha Hby ltac:(lia)) as B.
+  exact (gen_blocks_refine_allocset_gen A hd page bs fit h buf ops Hp Hb B Hsm Hok).
+Qed.
+
 (* the same, together with the invariant of the final state: every state of a
    run satisfies the hypotheses of the companions below *)
 Lemma gen_run_reaches : forall A hd page bs fit h buf b0 ops,
@@ -713,11 +827,25 @@ Proof.
   - vm_compute. reflexivity.
 Qed.
 
+(* a storage that already records allocations (indices 0, 1 and 15): the set
+   named by gen_blocks_refine_allocset_heap, and a run on it *)
+Example gen_ex_heap_alloc_set :
+  let arr := [3; 0; 0; 0; 0; 0; 0; 0; 0; 128; 0; 0; 0; 0; 0; 0; 0; 0] in
+  alloc_of_bytes 1 2 (buf_of_list arr) = [0; 1; 15] /\
+  match Gen.NewBlocks 4096 (hb_Size 0) (hb_Buffer 0) 1 7 false [arr] with
+  | Ok ((g, ENil), h1) =>
+      fst (fst (gen_run 4096 false 0 7 g [OAvail; OArrange; OFree 15; OFree 15; OArrange; OFree 16] h1)) =
+      [OutN 13; OutIdx 2; OutOk; OutErr EOther; OutIdx 3; OutErr EOther]
+  | _ => False
+  end.
+Proof. vm_compute. split; reflexivity. Qed.
+
 (* one traversal for all theorems of this file (a Print Assumptions costs about
    1.5 s here; the headline has its own above): an axiom used by any of them
    would be listed *)
 Definition gen_c17_run_theorems :=
-  (gen_step_refines, gen_run_refines, rinv_step, rinv_hyps, gen_blocks_refine_allocset, gen_run_reaches,
+  (gen_step_refines, gen_run_refines, rinv_step, rinv_hyps, gen_blocks_refine_allocset, gen_blocks_refine_allocset_gen,
+   gen_blocks_refine_allocset_heap, gen_run_reaches,
    gen_arrange_fresh_run, gen_no_double_allocation, gen_blocks_disjoint, gen_available_accounting,
-   gen_reopen_same, gen_ex_blocks_run, gen_ex_blocks_hyps).
+   gen_reopen_same, gen_ex_blocks_run, gen_ex_blocks_hyps, gen_ex_heap_alloc_set).
 Print Assumptions gen_c17_run_theorems.
